@@ -6,10 +6,10 @@ import json, os, glob
 V = "/verif"
 META = {
  "C01": dict(technique="abstract interpretation over exact linear forms (ast) + regular-language inclusion on re._parser ASTs",
-    text="Decides, for all inputs at once, named clauses of C01 from the source: every timestamp field of the SRT/WebVTT/DFXP/SAMI/MicroDVD readers is scaled by the coefficient the format's grammar requires (symbolic evaluation of the loop-free conversion functions into rational polynomial forms compared with an oracle written from the format specs), fraction fields are padded on the right and cut to their width, every grammar-conformant stamp is in the language of the repository's regexes (shortest counter-example otherwise), group roles match, no truncation of a twice-rounded float reaches Caption.start/end, readers only append in document order, Caption refuses non-numeric times. It does not decide the behaviour as a whole: cue segmentation by str.splitlines/BeautifulSoup and the scanning loops are not decided.",
+    text="Decides, for all inputs at once, named clauses of C01 from the source: every timestamp field of the SRT/WebVTT/DFXP/SAMI/MicroDVD readers is scaled by the coefficient the format's grammar requires (symbolic evaluation of the loop-free conversion functions into rational polynomial forms compared with an oracle written from the format specs), fraction fields are padded on the right and cut to their width (and, digit by digit, every digit of a 1..9-digit DFXP second fraction has its decimal weight: symbolic digit strings), every grammar-conformant stamp is in the language of the repository's regexes (shortest counter-example otherwise), group roles match, no truncation of a twice-rounded float reaches Caption.start/end, readers only append in document order, Caption refuses non-numeric times. It does not decide the behaviour as a whole: cue segmentation by str.splitlines/BeautifulSoup and the scanning loops are not decided.",
     note="Trusted: CPython ast/re._parser; int/float/Fraction(str) semantics; IEEE-754 correctly rounded operations; the oracle tables in sa/spec/time_grammar.py. Rule instances are confirmed by hand on the pinned tree (floor: 10 conversion sites)."),
  "C05": dict(technique="constant folding of module tables (no import) compared with an independent CEA-608 generator; dispatch-table extraction",
-    text="Decides the table clauses of C05 only: CHARACTERS/SPECIAL_CHARS/EXTENDED_CHARS, all 480 preamble address codes, tab offsets and the control-code dispatch of SCCReader._translate_command agree with a generator written from the CEA-608 bit layout; the word classes the dispatcher tests in order are disjoint; the row/column -> safe-area map has the right coefficients; small pure predicates (style classification, back-space condition, tab-offset window) are folded over their whole finite domain. The decoder's behaviour over command sequences (doubling memory, row adjacency, italic extent) is NOT decided by this family.",
+    text="Decides the table clauses of C05 only: CHARACTERS/SPECIAL_CHARS/EXTENDED_CHARS, all 480 preamble address codes, tab offsets and the control-code dispatch of SCCReader._translate_command agree with a generator written from the CEA-608 bit layout; the word classes the dispatcher tests in order are disjoint; the row/column -> safe-area map has the right coefficients; small pure predicates (style classification, back-space condition, tab-offset window) are folded over their whole finite domain; the duplicate filter (_handle_double_command) is folded as a finite-state transducer from every reachable state on a representative 12-word alphabet and checked against the doubling obligations (a doubled control/special code counts once, twice-doubled counts twice, address+tab-offset in all three transmission forms, text never a duplicate, only the immediately preceding word counts) - one obligation fails on the pinned tree (known finding: tab offset after a DOUBLED address code is dropped). The rest of the decoder's behaviour over command sequences (row adjacency, back-space, italic extent) is NOT decided by this family.",
     note="Trusted: the transcription of CEA-608-E in sa/spec/cea608.py (both readings accepted where published tables differ); constant folding implements Python semantics for the whitelisted pure subset."),
  "C10": dict(technique="def-use / effect analysis on the AST: mutable defaults, definite re-initialisation of per-call state, set-order flows, global mutation",
     text="Decides the structural necessary conditions of C10: no mutable default argument escapes (R-DEFAULTS), every piece of reader state that is written or mutated during read() is definitely re-created before its first use in that call (R-STATE), no module- or class-level mutable object is mutated from read-reachable code (R-GLOBALMUT), no hash-ordered set is iterated into a result (R-HASHORDER), no nondeterministic source is called (R-NONDET). Equality of two result sets as such is not decided.",
@@ -28,22 +28,22 @@ META.update({
     text="Decides: _translate_time is (3600h+60m+s+f/30) x (1001/1000 for ':' | 1 for ';') x 10^6 - offset with the clamp testing the returned value; read() scales the offset by 10^6; every path through _translate_word counts exactly one frame after handling the word; thresholds (5 frames + 1 us, 4 s default over all trailing open captions, 0 < d < 50000 -> CaptionReadTimingError); EOC/EDM def-use of get_time(); the doubling memory is written only by the doubling handler. Not decided: which captions a stream yields, ordering.",
     note="Trusted: the structural match of get_time()'s stamp re-assembly (an unrecognised rewrite is ANALYSIS-ERROR); control-code values from sa/spec/cea608.py."),
  "C12": dict(technique="constant folding of the alignment maps over their enums, symbolic evaluation of the WebVTT cue-setting arithmetic on geometry objects",
-    text="Decides: external/internal alignment maps are mutual inverses for every enum member and use the TTML vocabulary; WEBVTT_VERSION_OF is total; attribute names written == read with the right factories; a layout gets a region iff any component is present; WebVTT position/line/size are origin.x+padding.start / origin.y+padding.before / extent.h-padding.start-padding.end (percent), align omitted exactly for centre; raw cue settings flow verbatim from the timing line into the output; fallback node>caption>language>set>default; layouts are sound dictionary keys; the cue-splitting test has no extra condition. Not decided: effective layout per character after re-reading.",
+    text="Decides: external/internal alignment maps are mutual inverses for every enum member and use the TTML vocabulary; WEBVTT_VERSION_OF is total; attribute names written == read with the right factories; a layout gets a region iff any component is present; WebVTT position/line/size are origin.x+padding.start / origin.y+padding.before / extent.h-padding.start-padding.end (percent), align omitted exactly for centre; raw cue settings flow verbatim from the timing line into the output; fallback node>caption>language>set>default; WebVTT's `lang` is read only after its None default was replaced; layouts are sound dictionary keys; the cue-splitting test has no extra condition. Not decided: effective layout per character after re-reading.",
     note="Trusted: Size.__add__/__sub__ semantics are read from the source by the same evaluator; bs4 is opaque."),
  "C13": dict(technique="linear-form abstract interpretation per unit (piecewise on the finite unit enum), must-raise and guard dominance, layout-level coverage",
-    text="Decides: Size.as_percentage_of has the specified coefficient for each of the five units and each axis, refuses (RelativizationError) when no or both dimensions are given for every absolute unit; axis routing of Point/Stretch/Padding/Layout; fit_to_screen replaces an axis exactly when origin+extent exceeds 90/95 with 90-x / 95-y and fills a missing extent to the edges; the writer entry point applies relativize then fit, each guarded only by its own option; every layout level a writer consumes was relativized (F14 = known finding for DFXP language/set level); WebVTT prints only sizes that passed as_percentage_of or is_relative(). Not decided: float results for particular magnitudes.",
+    text="Decides: Size.as_percentage_of has the specified coefficient for each of the five units and each axis, refuses (RelativizationError) when no or both dimensions are given for every absolute unit; axis routing of Point/Stretch/Padding/Layout; fit_to_screen replaces an axis exactly when origin+extent exceeds 90/95 with 90-x / 95-y and fills a missing extent to the edges; the writer entry point applies relativize then fit, each guarded only by its own option; every layout level a writer consumes was relativized (F14 = known finding for DFXP language/set level); WebVTT prints only sizes that passed as_percentage_of or is_relative() on every feasible path, and is_relative() means what that guard assumes (Size: exactly percentages, folded over unit x value; composites: every present part, folded on stubs); each level is sanitised unconditionally. Not decided: float results for particular magnitudes.",
     note="Trusted: geometry objects are truthy (C18 R-BOOL-STRUCTURAL); the oracle constants in sa/spec/geometry_spec.py."),
  "C15": dict(technique="path rule on the scan loop (every path adds, none replaces) + structural identity of the measured text",
-    text="Decides C15's mechanism completely at the level of shape: on every path through the scan loop this caption's offenders are ADDED to the accumulator and nothing replaces earlier entries; the scan walks the collection get_all() returns from; the measured text is the whole joined caption split at line breaks with limit 32; a non-empty message raises CaptionLineLengthError before any return and every start time contributes. The line lengths themselves come from the decoder (C05/C16) and are not decided.",
+    text="Decides C15's mechanism completely at the level of shape: on every path through the scan loop this caption's offenders are ADDED to the accumulator and nothing replaces earlier entries; the scan runs after the final flush and walks the collection get_all() returns from; the measured text is the whole joined caption split at line breaks with limit 32; a non-empty message raises CaptionLineLengthError before any return and every start time contributes. The line lengths themselves come from the decoder (C05/C16) and are not decided.",
     note="Trusted: Caption.get_text_nodes' shape (checked), defaultdict(list) semantics."),
  "C16": dict(technique="pairing/ordering path rules over the buffer handlers (store-before-discard, discard-after-store), must-call ordering",
-    text="Thin claim, pairing and ordering only: in every handler that replaces the active buffer (mode-switch flush, roll-up, RDC/RUx/EOC branches) each path stores the buffer exactly once before discarding it and discards it after storing it (no loss, no duplicate emission), the erase command excepted; read() flushes after the last line and before collecting; the flush observer is registered before the first activation and sees the old key; _roll_up stores at the old time, then takes the new time, then force-ends the previous captions; emptiness looks at every node; every trailing open caption gets an end. Character conservation as such is NOT decided.",
+    text="Thin claim, pairing and ordering only: in every handler that replaces the active buffer (mode-switch flush, roll-up, RDC/RUx/EOC branches) each path stores the buffer exactly once before discarding it and discards it after storing it (no loss, no duplicate emission), the erase command excepted; read() flushes after the last line and before collecting; the flush observer is registered before the first activation and sees the old key; _roll_up stores at the old time, then takes the new time, then force-ends the previous captions; emptiness looks at every node; every trailing open caption gets an end; the duplicate filter drops exactly the second copy of a doubled code and never text (finite-state fold shared with C05). Character conservation as such is NOT decided.",
     note="Trusted: loops summarised as zero-or-one iteration (exact for these per-statement obligations)."),
  "C17": dict(technique="table rules (parity, inverse, CEA-608 reference), symbolic fold of the timecode formatter, mod-5 length automaton of the word assembler",
     text="Decides: every byte the writer can emit (character tables, PAC bytes, literal command words, filler, fallback) has odd parity; writer PAC bytes address (row,0) by the reader's map and the CEA-608 reference; CHARACTER_TO_CODE inverts CHARACTERS; every line passes textwrap.fill(.,32); the hh:mm:ss:ff formatter equals the reference on 2 880 boundary timecodes; pre-roll = payload words + the literal command words actually written, compared against the pre-rolled start; HEADER shared with detect; len(code)%5 abstract interpretation shows only whole 4-hex words are emitted. Not decided: timing slack, re-read equality.",
     note="Trusted: textwrap defaults (break at spaces, split long words)."),
  "C19": dict(technique="linear forms of the retiming assignments, boundary operator, merge-key and separator guards",
-    text="Decides: new start/end are t*skew+offset (both), the keep-test reads the new start with `>= 0`, kept captions are appended in order with nodes untouched and stored back under the same language; merge_concurrent_captions compares (start,end) of consecutive captions as numbers; merge() inserts exactly one unconditional break between captions, appends all nodes in order and keeps the first caption's times. Not decided: maximality of runs, idempotence.",
+    text="Decides: new start/end are t*skew+offset (both), the keep-test reads the new start with `>= 0`, kept captions are appended in order with nodes untouched, the iterated list is not modified, and the result is stored back under the same language unconditionally (set_captions has no guard); merge_concurrent_captions compares (start,end) of consecutive captions as numbers (grouping in a mapping keyed by the times is reported: it merges non-adjacent captions); merge() inserts exactly one unconditional break between captions, appends all nodes in order and keeps the first caption's times. Not decided: maximality of runs, idempotence.",
     note="Trusted: -"),
  "C20": dict(technique="constant folding of the reader order, exception-freedom scan with guard recognition, marker agreement + regular-language inclusion for MicroDVD",
     text="Decides: probe order, first-accept loop and emptiness guard of detect_format; every construct of the six detect methods that can raise on a non-empty str is discharged by a recognised guard (length test in a short-circuit/if, index 0 of splitlines, except IndexError); readers construct without arguments; each writer's skeleton contains its reader's marker, no earlier sniffer's marker occurs in a later skeleton, every document MicroDVDWriter can produce is in the sniffer's language (shortest counter-example otherwise). Not decided: that the detected reader reads the document.",
@@ -53,13 +53,13 @@ CLAIMED += ["C02", "C06", "C12", "C13", "C15", "C16", "C17", "C19", "C20"]
 
 META.update({
  "C03": dict(technique="interprocedural string-provenance (taint) abstract interpretation to raw-markup sinks; replacement-table rule; blank-line structural rule",
-    text="Decides: on every flow from caption TEXT to a raw sink of the three DFXP writers and the SAMI writer (tag.string with prettify(formatter=None)) and to the WebVTT document, the context's sanitiser is applied exactly once (zero = injection, two = double escaping), recognised by what the sanitiser does (escape(), replace chains), not by its name; the WebVTT encoder's table neutralises & < --> with '&' first; a BREAK can never produce an empty line in SRT / WebVTT / MicroDVD (placeholder guards, newline-collapse loops). Not decided: what a conformant parser makes of the output.",
+    text="Decides: on every flow from caption TEXT to a raw sink of the three DFXP writers and the SAMI writer (tag.string with prettify(formatter=None)) and to the WebVTT document, the context's sanitiser is applied exactly once (zero = injection, two = double escaping), recognised by what the sanitiser does (escape(), replace chains), not by its name; XML character data additionally may not contain ']]>'; the WebVTT encoder's table neutralises & < --> with '&' first; a BREAK can never produce an empty line in SRT / WebVTT / MicroDVD (placeholder guards, newline-collapse loops). Not decided: what a conformant parser makes of the output.",
     note="Trusted: bs4 formatter=None substitutes nothing; saxutils.escape replaces & < >; the abstract interpreter's library summaries (sa/engines/absint_lib.py); unresolved calls are havocked (counted in the evidence)."),
  "C04": dict(technique="regular-language inclusion/equality on re._parser ASTs (shortest witness) + decode-once structural rules on the two-stage SAMI parse",
-    text="Decides: SAMI hands references of markup characters (&amp; &lt; numeric) to the second parser still encoded and looks entity names up verbatim; WebVTT decodes '&amp;' last and its table inverts the writer's encoder on the hazard set; the &apos; workaround cannot create a reference; the DFXP/SAMI text-capture pattern is checked for totality (it is not: known finding with witness 'a\\na'); a text node is dropped only when nothing matched; OTHER_SPAN_PATTERN / VOICE_SPAN_PATTERN equal the reference WebVTT tag language; numeric references (known finding); br / '|' / newline become BREAK nodes. Not decided: parser libraries' entity tables, nesting, whitespace.",
+    text="Decides: SAMI hands references of markup characters (&amp; &lt; numeric) to the second parser still encoded and looks entity names up verbatim; WebVTT decodes '&amp;' last and its table inverts the writer's encoder on the hazard set; references are decoded only after the tags are stripped; the &apos; workaround cannot create a reference; the DFXP/SAMI text-capture pattern is checked for totality (it is not: known finding with witness 'a\\na') and, separately, for single-line text after an indentation prefix (holds); a text node is dropped only when nothing matched; OTHER_SPAN_PATTERN / VOICE_SPAN_PATTERN equal the reference WebVTT tag language; numeric references (known finding); br / '|' / newline become BREAK nodes. Not decided: parser libraries' entity tables, nesting, whitespace.",
     note="Trusted: the reference WebVTT tag language in the check; html.parser calls the handlers as documented."),
  "C07": dict(technique="taint abstract interpretation over ALL model strings to raw sinks; flag-automaton (typestate) extraction of the span routine; dominance/ordering path rules",
-    text="Decides: every model string (text, style values, class names, style ids, language codes, the force option) reaching a raw sink of DFXPWriter / SinglePositioningDFXPWriter / LegacyDFXPWriter is escaped exactly once for that sink's context (hand-written double-quoted attributes need \" too); the span routine's extracted (state x input)->(tokens,state) table alternates <span>/</span> for EVERY node sequence; style= / region= references are written only after the lookup of that id in the document; every positioning query marks its region, create->queries->cleanup->serialise, clean-up iterates a materialised list; one div per language and one p(begin,end) per caption. Not decided: id uniqueness/NCName-ness, XML character range.",
+    text="Decides: every model string (text, style values, class names, style ids, language codes, the force option) reaching a raw sink of DFXPWriter / SinglePositioningDFXPWriter / LegacyDFXPWriter is escaped exactly once for that sink's context (hand-written double-quoted attributes need \" too; quoteattr is summarised as escaping & < > only); the span routine's extracted (state x input)->(tokens,state) table alternates <span>/</span> for EVERY node sequence; style= / region= references are written only after the lookup of that id in the document; every positioning query marks its region, create->queries->cleanup->serialise, clean-up iterates a materialised list; one div per language and one p(begin,end) per caption. Not decided: id uniqueness/NCName-ness, XML character range.",
     note="Trusted: as C03; the region bookkeeping of bs4 find()."),
  "C08": dict(technique="sibling cross-checks between each writer and the reader of the same format (language inclusion, exactness kinds, inverse tables)",
     text="Decides only the pairwise agreement clauses: the stamp language every writer prints is inside what its reader accepts (DFXP, WebVTT stamp and timing line, MicroDVD line, SRT fields, SAMI integers); the readers are exact on the writers' grid (no truncation of twice-rounded floats in SRT/MicroDVD, same default frame rate on both sides, the MicroDVD rate header needs BOTH fields 0); WebVTT encode/decode tables are mutual inverses with '&' first/last; style vocabularies agree. Equality after a chain and idempotence are NOT decided.",
